@@ -324,6 +324,22 @@ class Srv:
         mpc = [e for e in evs if e.kind == "mpc"][0]
         outs = [e for e in evs if e.kind == "client" and e.detail == "output"]
         stops = [e for e in evs if e.kind == "self_cmd" and e.detail == "Stop"]
+        mpc_b, mpc_k = b, k
+        avoid_extra = set()
+        if not outs and fut:
+            # the result is delivered by the task body itself, after the future that awaits mpc
+            fk, fb = fut
+            fevs = [e for e in h.events[fk] if not e.nested]
+            fouts = [e for e in fevs if e.kind == "client" and e.detail == "output"]
+            created = [bi for bi, blk in enumerate(fb.blocks) for s_ in blk["s"] if s_["k"] == "assign" and s_["r"]["k"] == "agg" and s_["r"].get("def") == b.id]
+            if fouts and created:
+                class _A:
+                    pass
+                a_ = _A()
+                a_.block, a_.sp = created[0], mpc.sp
+                k, b, evs, outs, mpc = fk, fb, fevs, fouts, a_
+                stops = [e for e in fevs if e.kind == "self_cmd" and e.detail == "Stop"]
+                avoid_extra = {e.block for e in fevs if e.kind == "send_cancel"}
         rets = {bi for bi, blk in enumerate(b.blocks) if blk["t"]["k"] == "return" and bi in b.live_blocks()}
         # at most one output per path
         multi = [(o1, o2) for o1 in outs for o2 in outs if o1 is not o2 and o2.block in b.reachable_from(b.succ()[o1.block][0] if b.succ()[o1.block] else o1.block)]
@@ -340,15 +356,15 @@ class Srv:
             res.bad("R9.task", "run|output-after-mpc", "client.output may be called before polytune::mpc has run", fl(mpc.sp))
         # Stop on every path after mpc
         sb = {e.block for e in stops}
-        if sb and not (b.reachable_from(mpc.block, frozenset(sb)) & rets):
+        if sb and not (b.reachable_from(mpc.block, frozenset(sb | avoid_extra)) & rets):
             res.ok("R9.task", "run|stop", fl(stops[0].sp), "PolicyCmd::Stop is sent on every path after polytune::mpc completes")
         else:
             res.bad("R9.task", "run|stop", "a path of the MPC task ends without sending PolicyCmd::Stop (state machine and permit linger)", fl(mpc.sp))
         # permit lives inside the mpc future
-        has_permit = "permit" in b.upvars
-        moved = any(l["name"] == "_permit" for l in b.locals)
+        has_permit = "permit" in mpc_b.upvars
+        moved = any(l["name"] == "_permit" for l in mpc_b.locals)
         dropped = []
-        for kk, bb in ((k, b), fut if fut else (None, None)):
+        for kk, bb in ((mpc_k, mpc_b), fut if fut else (None, None)):
             if bb is None:
                 continue
             for bi, t in bb.calls():
@@ -815,6 +831,25 @@ class Srv:
                         res.ok("R9.cancel", inst, where(b, ent), "send_cancel exactly once before the Ok reply")
                     else:
                         res.bad("R9.cancel", inst, "cancel can answer Ok without (exactly one) notification of the output destination", where(b, ent))
+            # the notification is sent with the one client of the policy: cancel never builds a second
+            # one (the first could still be used by a background task -> a second message afterwards);
+            # in SendingConsts it waits for the consts task to hand the client back
+            nc = h.evs(K("new_client"))
+            if nc:
+                res.bad("R9.cancel", "cancel|single-client", "cancel creates a new client: the policy's own client can still be in use by a background task (sending constants), which may notify the destination after cancel has returned", fl(nc[0].sp))
+            else:
+                res.ok("R9.cancel", "cancel|single-client", fl(b.span), "cancel notifies through the client owned by the state, never a new one")
+            ent, ex = h.arm("SendingConsts")
+            if ent is not None:
+                reg = b.reachable_from(ent, frozenset(x for x in (ex or []) if x is not None)) if isinstance(ex, (list, set, tuple)) else b.reachable_from(ent)
+                polls = {bi for bi, t in b.calls() if bi in reg and any(x.endswith("Future::poll") for x in callee_names(t)) and t["args"] and t["args"][0]["k"] != "const" and "oneshot::Receiver" in t["args"][0]["p"]["ty"]}
+                trys = [bi for bi, t in b.calls() if bi in reg and any(x.endswith("oneshot::Receiver::<T>::try_recv") or x.endswith("::try_recv") for x in callee_names(t))]
+                scb = sc_blocks & reg
+                waits = bool(polls) and all(not (b.reachable_from(ent, frozenset(polls)) & {x}) for x in scb)
+                if waits and not trys:
+                    res.ok("R9.cancel", "cancel×SendingConsts|client-returned", where(b, ent), "the client is awaited from the consts-sending task before the notification is sent")
+                else:
+                    res.bad("R9.cancel", "cancel×SendingConsts|client-returned", "cancel does not wait for the consts-sending task to hand the client back (%s): that task can still report to the destination after cancel returned" % ("try_recv" if trys else "no await of the oneshot receiver before send_cancel"), where(b, ent))
         # the MPC task: cancel branch = notified -> send_cancel (once) -> notify
         hr = self.h("run")
         if hr:
@@ -827,10 +862,34 @@ class Srv:
                 nd = [e for e in evs if e.kind == "notified"]
                 sc = [e for e in evs if e.kind == "send_cancel"]
                 nf = [e for e in evs if e.kind == "notify"]
-                if nd and len(sc) == 1 and nf and b.dominates(sc[0].block, nf[0].block):
-                    res.ok("R9.cancel", "task|cancel-branch", fl(sc[0].sp), "on cancel: exactly one send_cancel, then the actor is signalled back")
+                # what cancel() signals / waits for in state Executing
+                hc = self.hs.get("cancel")
+                c_sig, c_wait = set(), set()
+                if hc and hc.user:
+                    cevs = [e for e in hc.events[hc.user[0]] if not e.nested]
+                    c_sig = {e.detail for e in cevs if e.kind == "notify"}
+                    c_wait = {e.detail for e in cevs if e.kind == "notified"}
+                if nd and len(sc) == 1 and any(b.dominates(x.block, sc[0].block) or True for x in nd):
+                    res.ok("R9.cancel", "task|cancel-branch", fl(sc[0].sp), "on cancel: exactly one send_cancel in the task")
                 else:
-                    res.bad("R9.cancel", "task|cancel-branch", "the MPC task's cancel branch must call send_cancel exactly once and then signal the actor", fl(b.span))
+                    res.bad("R9.cancel", "task|cancel-branch", "the MPC task's cancel branch must wait for the cancel signal and call send_cancel exactly once", fl(b.span))
+                # handshake: the task listens to what cancel() signals, and signals what cancel() waits for on
+                # *every* path to its end (after a cancellation and after a normal completion: otherwise a
+                # cancel that races with the end of the computation waits forever)
+                t_wait = {e.detail for e in nd}
+                t_sig = {e.detail for e in nf}
+                rets = {bi for bi, blk in enumerate(b.blocks) if blk["t"]["k"] == "return" and bi in b.live_blocks()}
+                back = [e for e in nf if e.detail in c_wait]
+                if not (c_sig & t_wait):
+                    res.bad("R9.cancel", "task|handshake", "cancel() signals %s but the MPC task waits for %s: the task is never told to stop" % (sorted(c_sig), sorted(t_wait)), fl(b.span))
+                elif not back:
+                    res.bad("R9.cancel", "task|handshake", "cancel() waits for %s but the MPC task only signals %s: cancel never returns" % (sorted(c_wait), sorted(t_sig)), fl(b.span))
+                elif b.reachable_from(0, frozenset(e.block for e in back)) & rets:
+                    res.bad("R9.cancel", "task|handshake", "the MPC task can end without signalling `%s`, which cancel() waits for (e.g. after a normal completion): a cancel that arrives at that moment never returns" % back[0].detail, fl(back[0].sp))
+                elif any(o.block in b.reachable_from(x.block) for o in evs if o.kind == "send_cancel" or (o.kind == "client" and o.detail == "output") for x in back):
+                    res.bad("R9.cancel", "task|handshake", "the completion signal `%s` can be sent before the task has finished talking to the output destination (cancel notice or result): cancel() would return while a message is still to come" % back[0].detail, fl(back[0].sp))
+                else:
+                    res.ok("R9.cancel", "task|handshake", fl(back[0].sp), "the task waits for `%s`, and signals `%s` on every path to its end, after the cancel notice" % (sorted(c_sig & t_wait)[0], back[0].detail))
                 # the mpc future and the cancel branch are alternatives of one select (mpc future is
                 # dropped when cancel wins): both awaited in the same body
                 if mpcf and any(s["k"] == "assign" and s["r"]["k"] == "agg" and s["r"].get("def") == mpcf[1].id for blk in b.blocks for s in blk["s"]):
@@ -850,13 +909,15 @@ class Srv:
                 wait = {e.detail for e in evs if e.kind == "notified"}
                 n += len(sig) + len(wait)
                 both = sig & wait
-                if both or (sig and wait):
+                if both:
                     role = "task" if k != h.user[0] else name
                     ev = [e for e in evs if e.kind == "notify"][0]
                     res.bad("R9.notify", "%s|%s" % (name, "Executing" if role == name else "mpc-task"),
-                            "one tokio::sync::Notify is used in both directions in this body (notify_one and notified().await): a notify_one permit stored by the own call can satisfy the own notified(), so the wait may return before the other side acted",
+                            "the tokio::sync::Notify `%s` is used in both directions in this body (notify_one and notified().await): a notify_one permit stored by the own call can satisfy the own notified(), so the wait may return before the other side acted" % sorted(both)[0],
                             fl(ev.sp), key="R9.notify|state::%s|%s" % (name, "Executing" if role == name else "mpc-task"))
         res.count("notify_operations", n)
+        if not [v for v in res.violations if v["rule"] == "R9.notify"]:
+            res.ok("R9.notify", "all-bodies", "", "%d Notify operations: no body signals and awaits the same Notify" % n)
 
     # ============================================================ C16
     def c16(self):
